@@ -19,7 +19,7 @@ RULE = (
     "explorerscript_reader.py, macro.py, compiler/utils.py and the antlr4 ATN simulator / DFA / prediction-context "
     "modules (every opcode event inside graph_utils.py) a yield point; all threads but one are parked; a drawn list of "
     "(thread choice, run length, mode) entries decides who runs next - the schedule is data, replays exactly and shrinks; mode 1 counts only yield points inside code that touches state shared between calls (memo table, ANTLR caches), mode 2 additionally keeps the thread parked there until another job has finished (a long preemption in the middle of a shared-state access). A "
-    "second mode lets the same jobs run freely with sys.setswitchinterval(1e-6); a third ('cold') runs the scheduled jobs in a fresh interpreter BEFORE anything was parsed there, so that the shared ANTLR DFA caches are built under thread switches, and computes the sequential results afterwards. Oracle: every job's result (ops, "
+    "second mode lets the same jobs run freely with sys.setswitchinterval(1e-6); a third ('cold') runs the scheduled jobs in a fresh interpreter BEFORE anything was parsed there, so that the shared ANTLR DFA caches are built under thread switches, and computes the sequential results afterwards. A fourth kind of case ('lockstep') runs the same input in 2-4 threads switched round robin every 1-6 yield points (first-use races). Yield points are all lines of the explorerscript package except the generated parser. Oracle: every job's result (ops, "
     "offsets, tables, text, serialized source maps) equals its result when run alone beforehand; no job raises. "
     "Non-trivial = the schedule switched threads >= 20 times while >= 2 jobs were inside traced code; distinct by hash."
 )
@@ -31,10 +31,12 @@ ASSUMPTIONS = [
 CASES = {"quick": 320, "thorough": 10000}
 
 
-def job_items():
+def job_items(small_only=False):
     prog = st.one_of(gen_prog.programs(max_stmts=12, with_control=True), gen_macro.macro_programs(single_file=True, max_stmts=15, with_control=True))
     p_item = prog.map(lambda p: {"kind": "program", "prog": p})
     s_item = decomp.input_strategy(w1=1, w2=1, w3=2, max_stmts=12).map(lambda c: {"kind": "ssb", "case": c})
+    if small_only:
+        return weighted((1, p_item), (3, s_item))
     return weighted((2, p_item), (4, s_item), (1, deep_item()), (1, failing_item()))
 
 
@@ -74,7 +76,12 @@ def strategy(tier):
     })
     free_case = st.fixed_dictionaries({"mode": st.just("free"), "jobs": st.lists(job_items(), min_size=2, max_size=4), "dup": st.booleans(), "schedule": st.just([])})
     cold_case = sched_case.map(lambda c: dict(c, mode="cold"))
-    return weighted((3, sched_case), (1, free_case), (1, cold_case))
+    # lockstep: the SAME input in 2-4 threads, switched round robin every 1-6 yield points - all threads are at (nearly)
+    # the same place of the same code at the same time, which is where first-use races on memo tables / lazily
+    # filled class attributes live; run in a fresh interpreter (cold) or after the reference run (sched)
+    lock_case = st.tuples(job_items(small_only=True), st.integers(2, 4), st.integers(1, 6), st.sampled_from(["cold", "cold", "sched"])).map(
+        lambda t: {"mode": t[3], "jobs": [t[0]] * t[1], "dup": False, "schedule": [[i, t[2], 0] for i in range(t[1])], "lockstep": True, "max_switches": 60000})
+    return weighted((6, sched_case), (2, free_case), (2, cold_case), (3, lock_case))
 
 
 def make_job(item):
@@ -111,6 +118,18 @@ def run_case_here(case, reference_first=True):
     import explorerscript.ssb_script.ssb_converting.ssb_decompiler  # noqa
     import explorerscript.ssb_converting.compiler.compiler_visitor.position_mark_visitor  # noqa
     from vf import cut, model  # noqa
+    import importlib
+    import pkgutil
+
+    import explorerscript
+
+    for m in pkgutil.walk_packages(explorerscript.__path__, "explorerscript."):
+        if ".cli" in m.name or ".pygments" in m.name:
+            continue
+        try:
+            importlib.import_module(m.name)
+        except Exception:  # noqa
+            pass
 
     items = list(case["jobs"])
     if case.get("dup") and items:
@@ -128,7 +147,7 @@ def run_case_here(case, reference_first=True):
     refs = None
     if reference_first:
         refs = [j() for j in jobs]
-    s = sched.Scheduler(jobs, case["schedule"])
+    s = sched.Scheduler(jobs, case["schedule"], max_switches=case.get("max_switches", 4000))
     got, errs = s.run()
     if refs is None:
         refs = [j() for j in jobs]
@@ -193,7 +212,7 @@ def evaluate(case, stt):
     stt.count("mode:" + case["mode"])
     stt.count(f"jobs:{len(jobs)}")
     if case["mode"] == "sched":
-        s = sched.Scheduler(jobs, case["schedule"])
+        s = sched.Scheduler(jobs, case["schedule"], max_switches=case.get("max_switches", 4000))
         got, errs = s.run()
         stt.add("yield_points", s.yield_points)
         stt.add("switches", s.switches)
